@@ -8,6 +8,7 @@ every binary operator of the template language (slots filled from nodes._binop_t
 ``__iter__`` and ``__aiter__`` agree in every class (the async compiler iterates through
 ``__aiter__``); every branch of ``_undefined_message`` names the variable / attribute;
 defined/undefined tests and the default filter use isinstance(..., Undefined).
+Also: object_type_repr / _undefined_message compare the hinted object by identity only (no __eq__ of user objects).  
 Not decided: the text of messages, pickle/copy round trips.
 """
 
